@@ -51,6 +51,12 @@ for how, hn in enumerate(["Clone", "Set"]):
                           stubs=["math/big.Int with shared storage: struct copies share the limbs; every receiver-writing method writes them in place (worst case of nat.make reuse)", "ModInverse uninterpreted"],
                           functions=["p256.(*residuePoint).%s" % hn, "p256.(*residuePoint).%s" % mn], bound="group P=2039, values 2..2038; programs: copy ; one mutating call",
                           tiers=(["quick", "thorough"] if mn in ("Null", "Add", "Set") else ["thorough"])))
+for mod in [251, 65521]:
+    for bo in [0, 1]:
+        for ln in [0, 1, 2, 3]:
+            H.append(dict(name="mod.Int.SetBytes-m%d-bo%d-len%d" % (mod, bo, ln), pkg="./group/mod", files=["harness/C05/modint.go"], entry="HarnessModIntSetBytes", mode="int", params={"p0": mod, "p1": bo, "p2": ln}, validate=3, unwind=64,
+                          stubs=["math/big.Int as mathematical integers"], functions=["mod.NewIntBytes", "mod.(*Int).InitBytes", "mod.(*Int).SetBytes", "compatible.(*Int).SetBytesMod"],
+                          bound="modulus %d, byte order %s, all byte strings of length %d" % (mod, ["big", "little"][bo], ln), tiers=(["quick", "thorough"] if (mod, ln) in ((251, 1), (251, 2), (65521, 2), (65521, 3)) else ["thorough"])))
 MOPS = ["Add", "Sub", "Neg", "Mul", "Set", "Zero", "One", "SetInt64", "SetUint64"]
 for mod in [251, 2, 65537]:
     for op, on in enumerate(MOPS):
